@@ -793,4 +793,177 @@ theorem navMemo_sound (src : Src) (p : List Bool) :
                 rw [hroot]; intro cr hcr
                 exact ⟨a.1, by simp [Memo.rootOf] at hcr; rw [← hcr]; exact hsrc⟩
 
+/-! ### 4e. a repeated navigation asks nothing; sequences; end to end -/
+
+theorem nav_known_L (src : Src) (bs : List Bool) (c : Chunk) (il : Option Bool) (r : Memo)
+    (c' : Chunk) (il' : Option Bool) (l' r' : Memo) :
+    navMemo src (false :: bs) (.cell c il (.cell c' il' l' r') r) =
+      ((navMemo src bs (.cell c' il' l' r')).1,
+       .cell c il (navMemo src bs (.cell c' il' l' r')).2.1 r,
+       (navMemo src bs (.cell c' il' l' r')).2.2.map (Query.under false)) := by
+  simp [navMemo, cellFetch, Step.bind, Step.focus]
+
+theorem nav_known_R (src : Src) (bs : List Bool) (c : Chunk) (il : Option Bool) (l : Memo)
+    (c' : Chunk) (il' : Option Bool) (l' r' : Memo) :
+    navMemo src (true :: bs) (.cell c il l (.cell c' il' l' r')) =
+      ((navMemo src bs (.cell c' il' l' r')).1,
+       .cell c il l (navMemo src bs (.cell c' il' l' r')).2.1,
+       (navMemo src bs (.cell c' il' l' r')).2.2.map (Query.under true)) := by
+  simp [navMemo, cellFetch, Step.bind, Step.focus]
+
+theorem nav_unk_L (src : Src) (bs : List Bool) (c : Chunk) (il : Option Bool) (r : Memo)
+    (a : Chunk × Chunk) (h1 : ¬ il = some true) (hsrc : src c = some a) :
+    navMemo src (false :: bs) (.cell c il .unk r) =
+      ((navMemo src bs (.fresh a.1)).1,
+       .cell c il (navMemo src bs (.fresh a.1)).2.1 r,
+       ⟨[], .left, true⟩ :: (navMemo src bs (.fresh a.1)).2.2.map (Query.under false)) := by
+  simp [navMemo, cellFetch, Step.bind, Step.focus, h1, hsrc, Memo.fresh, Kind.ofDir]
+
+theorem nav_unk_R (src : Src) (bs : List Bool) (c : Chunk) (il : Option Bool) (l : Memo)
+    (a : Chunk × Chunk) (h1 : ¬ il = some true) (hsrc : src c = some a) :
+    navMemo src (true :: bs) (.cell c il l .unk) =
+      ((navMemo src bs (.fresh a.2)).1,
+       .cell c il l (navMemo src bs (.fresh a.2)).2.1,
+       ⟨[], .right, true⟩ :: (navMemo src bs (.fresh a.2)).2.2.map (Query.under true)) := by
+  simp [navMemo, cellFetch, Step.bind, Step.focus, h1, hsrc, Memo.fresh, Kind.ofDir]
+theorem cell_of_rootOf {m : Memo} {c : Chunk} (h : m.rootOf = some c) :
+    ∃ il l r, m = .cell c il l r := by
+  cases m with
+  | unk => simp [Memo.rootOf] at h
+  | cell c0 il l r => simp [Memo.rootOf] at h; subst h; exact ⟨il, l, r, rfl⟩
+
+/-- a successful navigation, repeated on the same node object, asks the source nothing, changes
+    nothing and returns the same node -/
+theorem navMemo_again (src : Src) (p : List Bool) :
+    ∀ (m : Memo) (x : Chunk), (navMemo src p m).1 = some x →
+      navMemo src p (navMemo src p m).2.1 = (some x, (navMemo src p m).2.1, []) := by
+  induction p with
+  | nil => intro m x h; simp [navMemo] at h ⊢; exact h
+  | cons b bs ih =>
+    intro m x h
+    cases m with
+    | unk => simp [navMemo, cellFetch, Step.bind, Step.pure] at h
+    | cell c il l r =>
+      cases b
+      · cases l with
+        | cell c' il' l' r' =>
+          rw [nav_known_L] at h ⊢
+          simp only at h ⊢
+          have hroot := (good_navMemo src bs).root (.cell c' il' l' r')
+          obtain ⟨il2, l2, r2, h2⟩ := cell_of_rootOf hroot
+          have := ih _ x h
+          rw [h2] at this ⊢
+          rw [nav_known_L, this]; rfl
+        | unk =>
+          by_cases h1 : il = some true
+          · simp [navMemo, cellFetch, Step.bind, Step.pure, h1] at h
+          · cases hsrc : src c with
+            | none => simp [navMemo, cellFetch, Step.bind, Step.pure, h1, hsrc] at h
+            | some a =>
+              rw [nav_unk_L src bs c il r a h1 hsrc] at h ⊢
+              simp only at h ⊢
+              have hroot := (good_navMemo src bs).root (.fresh a.1)
+              obtain ⟨il2, l2, r2, h2⟩ := cell_of_rootOf hroot
+              have := ih _ x h
+              rw [h2] at this ⊢
+              rw [nav_known_L, this]; rfl
+      · cases r with
+        | cell c' il' l' r' =>
+          rw [nav_known_R] at h ⊢
+          simp only at h ⊢
+          have hroot := (good_navMemo src bs).root (.cell c' il' l' r')
+          obtain ⟨il2, l2, r2, h2⟩ := cell_of_rootOf hroot
+          have := ih _ x h
+          rw [h2] at this ⊢
+          rw [nav_known_R, this]; rfl
+        | unk =>
+          by_cases h1 : il = some true
+          · simp [navMemo, cellFetch, Step.bind, Step.pure, h1] at h
+          · cases hsrc : src c with
+            | none => simp [navMemo, cellFetch, Step.bind, Step.pure, h1, hsrc] at h
+            | some a =>
+              rw [nav_unk_R src bs c il l a h1 hsrc] at h ⊢
+              simp only at h ⊢
+              have hroot := (good_navMemo src bs).root (.fresh a.2)
+              obtain ⟨il2, l2, r2, h2⟩ := cell_of_rootOf hroot
+              have := ih _ x h
+              rw [h2] at this ⊢
+              rw [nav_known_R, this]; rfl
+
+/-- results of a whole sequence of memoised navigations: each is what the unmemoised navigation from
+    a fresh virtual node gives -/
+theorem runNavs_sound (src : Src) (ps : List (List Bool)) :
+    ∀ (m : Memo) (c : Chunk), Memo.Ok src m → m.rootOf = some c →
+      (runNavs src ps m).1.map (·.map MNode.virt) = ps.map (getPathM src (.virt c)) ∧
+      Memo.Ok src (runNavs src ps m).2.1 := by
+  induction ps with
+  | nil => intro m c hok _; simpa [runNavs, Step.pure] using hok
+  | cons p ps ih =>
+    intro m c hok hc
+    obtain ⟨h1, h2⟩ := navMemo_sound src p m c hok hc
+    have hroot : (navMemo src p m).2.1.rootOf = some c := by rw [(good_navMemo src p).root]; exact hc
+    obtain ⟨h3, h4⟩ := ih _ c h2 hroot
+    refine ⟨?_, ?_⟩
+    · simp only [runNavs, bind_fst, Step.pure, List.map_cons, h1]
+      rw [h3]
+    · simpa [runNavs, Step.pure] using h4
+
+/-- end to end: memoised navigation over a source serving the tree `n`, starting from a fresh
+    `VirtualNode(n.root, src)`, reaches a node exactly when navigation in `n` does, and returns its root -/
+theorem navMemo_serves {H : Hash} {src : Src} {n : Node} (h : Serves H src n) (p : List Bool) :
+    (navMemo src p (.fresh (n.root H))).1 = (getPath n p).map (·.root H) := by
+  have h1 := (navMemo_sound src p (.fresh (n.root H)) (n.root H) (ok_fresh src _) rfl).1
+  have h2 := getPathM_root (mat_virt h) p
+  rw [← h1] at h2
+  rw [← h2]
+  cases (navMemo src p (.fresh (n.root H))).1 <;> simp [MNode.root]
+
+/-! ### examples with a toy hash (non-vacuity, and the corners mentioned above) -/
+
+/-- a toy hash without collisions on the trees below -/
+private def H1 : Hash := fun a b => 255 :: (a ++ b)
+/-- left: two chunks; right: the zero summary of height 1 -/
+private def t0 : Node := .pair (.pair (.leaf [1]) (.leaf [2])) (zeroNode H1 1)
+private def src0 : Src := srcOfDict (dictOf H1 t0)
+private def v0 : MNode := .virt (t0.root H1)
+
+example : Serves H1 src0 t0 := by decide
+example : Mat H1 src0 v0 t0 := by decide
+-- a half materialised tree is related, too
+example : Mat H1 src0 (.pair (.virt (H1 [1] [2])) (.leaf (zeroHash H1 1))) t0 := by decide
+-- navigation: same nodes, same errors
+example : getPathM src0 v0 [false, true] = some (.virt [2]) ∧
+    getPath t0 [false, true] = some (.leaf [2]) := by decide
+example : getPathM src0 v0 [false, true, false] = none ∧ getPath t0 [false, true, false] = none := by
+  decide
+-- a write below the virtual zero summary expands it; the left sibling stays virtual
+example : setPathM H1 src0 true v0 [true, false] (.leaf [9]) =
+    some (.pair (.virt (H1 [1] [2])) (.pair (.leaf [9]) (.leaf (zeroHash H1 0)))) := by decide
+example : (setPathM H1 src0 true v0 [true, false] (.leaf [9])).map (·.root H1) =
+    (setPath H1 true t0 [true, false] (.leaf [9])).map (·.root H1) := by decide
+-- a virtual leaf that is not the zero summary is not expanded; without `expand` nothing is
+example : setPathM H1 src0 true v0 [false, true, false] (.leaf [9]) = none ∧
+    setPathM H1 src0 false v0 [true, false] (.leaf [9]) = none := by decide
+-- the corner: a top-level virtual zero summary (`RebindableNode.setter` does not expand it)
+example : setPathMTop H1 src0 true (.virt (zeroHash H1 1)) [false] (.leaf [9]) = none ∧
+    (setPathM H1 src0 true (.virt (zeroHash H1 1)) [false] (.leaf [9])).isSome := by decide
+-- one navigation: the nodes asked
+example : (getPathLog src0 v0 [false, true]).2 = [([], t0.root H1), ([false], H1 [1] [2])] := by
+  decide
+-- three navigations on one node object: three source queries in all, the third navigation asks nothing
+example : answered (runNavs src0 [[false, true], [false, false], [false, true]] (.fresh (t0.root H1))).2.2
+    = [([], .left), ([false], .right), ([false], .left)] := by decide
+example : (runNavs src0 [[false, true], [false, false], [false, true]] (.fresh (t0.root H1))).1
+    = [some [2], some [1], some [2]] := by decide
+-- an unanswered query (children of a leaf key) leaves no trace in the node object and is repeated
+example : (runNavs src0 [[false, true, false], [false, true, false]] (.fresh (t0.root H1))).2.2 =
+    [⟨[], .left, true⟩, ⟨[false], .right, true⟩, ⟨[false, true], .left, false⟩,
+     ⟨[false, true], .left, false⟩] := by decide
+-- the queries of a write: children, `is_leaf()`, siblings; a second write asks nothing new
+example : answered (setQueriesMemo H1 src0 true [false, true] (.fresh (t0.root H1))).2.2 =
+    [([], .left), ([false], .isLeaf), ([false], .left), ([], .right)] := by decide
+example : answered ((setQueriesMemo H1 src0 true [false, true]).bind
+      (fun _ => setQueriesMemo H1 src0 true [false, true]) (.fresh (t0.root H1))).2.2 =
+    [([], .left), ([false], .isLeaf), ([false], .left), ([], .right)] := by decide
+
 end Rmk.VirtualLaws
